@@ -24,12 +24,15 @@ ASSUMPTIONS = ['peer scripts of <= 4 actions; full enumeration of placements (no
                'pty slave in raw mode (byte exact); fake pid + simulated process table (validated against the real kernel by mc.conform_procsim)',
                'scheduling granularity = intercepted calls; PopenSpawn reader thread steps = one os.read + Queue.put']
 REQUIRED_FLAGS = {'action_inside_call': 1, 'eof_after_data': 1, 'coalesced_writes': 1, 'split_write': 1,
-                  'dead_child_repoll': 1}
+                  'dead_child_repoll': 1, 'unicode_reads_smaller_than_a_character': 1}
 
 T = 0.5
 
 
-def payload(n, base):
+def payload(n, base, enc=None):
+    if enc:
+        # n characters, every third one ASCII, the others two bytes long: small reads end inside characters
+        return ''.join(chr(base + (i % 26)) if i % 3 == 2 else chr(0xe0 + (i % 26)) for i in range(n)).encode(enc)
     return bytes((base + (i % 26)) for i in range(n))
 
 
@@ -67,6 +70,15 @@ def tasks(tier):
     for tr in ('pty-select', 'pty-poll', 'fd-pipe', 'socket'):
         for end in ((['exit', 'hup+exit'] if tr.startswith('pty') else ['close'])):
             out.append(dict(transport=tr, size=2000, pairs=[(1, 1)] if q else [(1, 1), (3, 0), (2000, 5)], ending=end, driver='rnb0'))
+    out.append(dict(transport='popen', size=2000, pairs=[(1, 1)] if q else [(1, 1), (3, 0), (2000, 5)], ending='exit', driver='rnb0'))
+    # unicode mode with reads smaller than a character (an empty decoded chunk is not the end of the stream)
+    for tr in ('pty-select', 'fd-pipe', 'popen', 'socket'):
+        for size in ((1,) if q else (1, 3)):
+            for drv in ('rnb', 'expect', 'rnb0'):
+                if drv == 'rnb0' and tr == 'popen' and False:
+                    continue
+                out.append(dict(transport=tr, size=size, pairs=[(1, 1), (2, 1)] if q else [(1, 1), (2, 1), (3, 2), (0, 2)],
+                                ending='exit' if tr in ('pty-select', 'popen') else 'close', driver=drv, enc='utf-8'))
     # short reads (the kernel may return fewer bytes than are available): pty transports, one per execution
     for tr in ('pty-select', 'pty-poll'):
         for drv in ('rnb', 'expect'):
@@ -89,7 +101,7 @@ class Setup(object):
         end = task['ending']
         self.sock = None
         if tr.startswith('pty'):
-            sp = E.pty_spawn(env, maxread=size, timeout=T, use_poll=(tr == 'pty-poll'))
+            sp = E.pty_spawn(env, maxread=size, timeout=T, use_poll=(tr == 'pty-poll'), encoding=task.get('enc'))
             fd, proc = sp.hs_slave, sp.hs_proc
             env.add('w', x, fd=fd)
             env.add('w', y, fd=fd)
@@ -104,7 +116,7 @@ class Setup(object):
         elif tr.startswith('fd-pipe'):
             from pexpect import fdpexpect
             r, w = env.pipe()
-            sp = fdpexpect.fdspawn(r, maxread=size, timeout=T, use_poll=tr.endswith('poll'))
+            sp = fdpexpect.fdspawn(r, maxread=size, timeout=T, use_poll=tr.endswith('poll'), encoding=task.get('enc'))
             env.add('w', x, fd=w)
             env.add('w', y, fd=w)
             env.add('hup', fd=w)
@@ -112,7 +124,7 @@ class Setup(object):
             from pexpect import popen_spawn
             E.install_popen()
             env.popen_time_sched = True
-            sp = popen_spawn.PopenSpawn(['fake'], maxread=size, timeout=T)
+            sp = popen_spawn.PopenSpawn(['fake'], maxread=size, timeout=T, encoding=task.get('enc'))
             pp = env.popen
             q = sp._read_queue
             real_get = q.get_nowait
@@ -136,7 +148,7 @@ class Setup(object):
             env.sockets[id(a)] = a
             env.sockets[id(b)] = b
             env.fds.add(a.fileno())
-            sp = socket_pexpect.SocketSpawn(self.sock, maxread=size, timeout=T)
+            sp = socket_pexpect.SocketSpawn(self.sock, maxread=size, timeout=T, encoding=task.get('enc'))
             # the owner of the socket changes its timeout after handing it over: THAT is the setting to preserve
             self.sock.settimeout(3.25)
             env.add('fn', lambda: b.sendall(x) if x else None)
@@ -158,8 +170,9 @@ def run_config(ch, task, x, y, record=None):
     try:
         st = Setup(env, task, x, y)
         sp = st.sp
-        want = x + y
-        got = b''
+        enc = task.get('enc')
+        want = x + y if not enc else (x + y).decode(enc)
+        got = want[:0]
         timeouts = 0
         empties = 0
         calls = 0
@@ -177,7 +190,7 @@ def run_config(ch, task, x, y, record=None):
                     c = sp.read_nonblocking(size, T if task['driver'] == 'rnb' else 0)
                     if env.points - p0 > 1 and len(env.script) < n_actions_before:
                         inside = True
-                    if not isinstance(c, bytes):
+                    if not isinstance(c, type(want)):
                         viol = ('type', 'read_nonblocking returned %r' % (c,))
                         break
                     obs['chunks'].append(len(c))
@@ -185,7 +198,7 @@ def run_config(ch, task, x, y, record=None):
                         viol = ('oversize', 'read_nonblocking(%d) returned %d bytes' % (size, len(c)))
                         break
                     got += c
-                    if c == b'':
+                    if not c:
                         empties += 1
                         if empties > 2:
                             force_progress(env)
@@ -285,7 +298,9 @@ def run_task(task):
     if 'large' in task:
         return run_large(task, acc)
     for (a, b) in task['pairs']:
-        x, y = payload(a, 65), payload(b, 97)
+        x, y = payload(a, 65, task.get('enc')), payload(b, 97, task.get('enc'))
+        if task.get('enc'):
+            acc.flags['unicode_reads_smaller_than_a_character'] += 1
 
         def run(ch):
             return run_config(ch, task, x, y)
@@ -318,7 +333,7 @@ def run_task(task):
                     acc.flags['dead_child_repoll'] += 1
                     break
             if viol:
-                key = '%s:%s:%s:%s' % (task['transport'], task['driver'], task['ending'], viol[0])
+                key = '%s%s:%s:%s:%s' % (task['transport'], '+utf-8' if task.get('enc') else '', task['driver'], task['ending'], viol[0])
                 acc.violation(key, viol[1] + ' | schedule log %r' % (obs['log'],),
                               dict(task={k: v for k, v in task.items() if k != 'pairs'}, a=a, b=b, choices=ch.choices()))
         acc.states += 1
@@ -468,9 +483,9 @@ def replay(spec):
         obs, viol = run_config_large(Chooser(()), task, payload(spec['large'], 65), spec.get('skip_at'))
         key = '%s:large:%s' % (task['transport'], viol[0]) if viol else None
     else:
-        x, y = payload(spec['a'], 65), payload(spec['b'], 97)
+        x, y = payload(spec['a'], 65, task.get('enc')), payload(spec['b'], 97, task.get('enc'))
         obs, viol = run_config(Chooser(spec['choices']), task, x, y)
-        key = '%s:%s:%s:%s' % (task['transport'], task['driver'], task['ending'], viol[0]) if viol else None
+        key = '%s%s:%s:%s:%s' % (task['transport'], '+utf-8' if task.get('enc') else '', task['driver'], task['ending'], viol[0]) if viol else None
     out['observation'] = {k: v for k, v in obs.items()}
     if viol:
         out['violation'] = {'key': key, 'msg': viol[1]}
